@@ -67,3 +67,12 @@ Proof. exact mpc_mul_closed. Qed.
 Theorem C10_mpc_div : forall z w prec r, cfin z -> cfin w -> (0 < cabs2 w)%R -> 0 < prec ->
   exists q, mpc_div z w prec r = Ok q /\ cfin q /\ cbc_le q prec.
 Proof. exact mpc_div_closed. Qed.
+
+(* interval arithmetic: end points carry at most prec bits *)
+From MP Require Import Algo.Libmpi Proofs.IvCmp Proofs.IvBc.
+Theorem C10_mpi_add : forall s t prec, valid_iv s -> valid_iv t -> 0 < prec -> ibc_le (mpi_add s t prec) prec.
+Proof. exact mpi_add_bc. Qed.
+Theorem C10_mpi_sub : forall s t prec, valid_iv s -> valid_iv t -> 0 < prec -> ibc_le (mpi_sub s t prec) prec.
+Proof. exact mpi_sub_bc. Qed.
+Theorem C10_mpi_mul : forall s t prec x y, valid_iv s -> valid_iv t -> 0 < prec -> in_iv s x -> in_iv t y -> ibc_le (mpi_mul s t prec) prec.
+Proof. exact mpi_mul_bc. Qed.
